@@ -963,6 +963,105 @@ def rule_r9(prog, res) -> None:
     shared_rule(res, c02.rule_r9, "C02", "C02.R9", "C06.R9")
 
 
+def rule_r10(prog, res) -> None:
+    """no explicit raise that only part of the ranks can reach in front of a world collective: when a validation
+    fails on the ranks that evaluate it (e.g. it was moved behind `if on_worker(): return None`) and the other
+    ranks have already left the function, they wait in the next collective (broadcast, barrier, gather) for a
+    partner that has raised — the run hangs instead of failing. Decided on the symbolic paths of every MPI-arm
+    function: a raise statement is rank-divergent when some rank test holds with one polarity only on all paths
+    that reach it; it is a violation when a world collective is reachable after the call in a caller (bound 3)."""
+    from .. import symx
+
+    coll_funcs = _world_collective_funcs(prog)
+    callers: dict = {}
+    for g in _mpi_funcs(prog):
+        for c in calls_in(g):
+            for t in prog.resolve_call(g, c).funcs():
+                callers.setdefault(t, []).append((g, c))
+                if t.cls is not None:  # a call through the base class reaches every override
+                    for sub in prog.classes:
+                        if sub is not t.cls and t.cls in prog.mro(sub) and t.name in sub.methods:
+                            callers.setdefault(sub.methods[t.name], []).append((g, c))
+
+    def collective_after(f, depth=0, seen=None):
+        """a (caller, collective) pair such that the collective is reachable after the call of f returns"""
+        seen = seen or set()
+        if depth > 3 or f in seen:
+            return None
+        seen.add(f)
+        for g, c in callers.get(f, []):
+            cfg = cfg_of(g.node)
+            starts = cfg.node_containing(c)
+            if not starts:
+                continue
+            after = cfg.reach(starts)
+            sites = [(x, op) for x, op, k in _mpi_calls(prog, g) if op in MPI_COLLECTIVES and k == WORLD]
+            for c2 in calls_in(g):
+                tg = prog.resolve_call(g, c2)
+                if c2 is not c and tg.precise and any(t in coll_funcs for t in tg.funcs()):
+                    sites.append((c2, "call:" + tg.funcs()[0].name))
+            for x, op in sites:
+                if any(nd.id in after and nd not in starts for nd in cfg.node_containing(x)):
+                    return g, op
+            up = collective_after(g, depth + 1, seen)
+            if up is not None:
+                return up
+        return None
+
+    n = 0
+    for fi in _mpi_funcs(prog):
+        if not any(isinstance(x, ast.Raise) for x in walk_no_nested(fi.node)):
+            continue
+        if not any(_rank_dependent(prog, fi, x.test) for x in walk_no_nested(fi.node) if isinstance(x, (ast.If, ast.IfExp, ast.While))):
+            continue
+        try:
+            paths = symx.explore(prog, fi, skip_tests=("logger",))
+        except symx.TooManyPaths:
+            continue
+        by_raise: dict = {}
+        for p in paths:
+            if p.outcome == "raise" and isinstance(p.node, ast.Raise):
+                by_raise.setdefault(id(p.node), (p.node, []))[1].append(p)
+        for _, (node, ps) in by_raise.items():
+            n += 1
+            res.touch(fi)
+            pols: dict = {}
+            for p in ps:
+                seen_here = {}
+                for t, pol in p.literals():
+                    if _rank_dependent(prog, fi, t):
+                        seen_here[unparse(t)] = pol
+                for k_, v_ in seen_here.items():
+                    pols.setdefault(k_, set()).add(v_)
+                for k_ in pols:
+                    if k_ not in seen_here:
+                        pols[k_].add(None)  # reached without deciding this test: not bound to one side
+            # tests that were not decided on every path do not bind the raise to a rank set
+            one_sided = sorted(k_ for k_, v_ in pols.items() if len(v_) == 1 and None not in v_ and all(k_ in {unparse(t) for t, _ in p.literals()} for p in ps))
+            site = res.site(fi, f"raise@{norm_stmt(node)[:40]}")
+            if not one_sided:
+                res.ok("C06.R10", site, "reached by every rank alike")
+                continue
+            hit = collective_after(fi)
+            # the function's own continuation for the ranks that do not raise
+            cfg = cfg_of(fi.node)
+            own = [(x, op) for x, op, k in _mpi_calls(prog, fi) if op in MPI_COLLECTIVES and k == WORLD]
+            if hit is None and not own:
+                res.ok("C06.R10", site, f"only reached where `{one_sided[0]}` has one value, but no world collective follows in the callers")
+                continue
+            where = f"{hit[0].short} ({hit[1]})" if hit is not None else f"{fi.short} ({own[0][1]})"
+            res.violation(
+                "C06.R10",
+                fi,
+                node,
+                f"`{norm_stmt(node)[:60]}` is reached only by the ranks on which `{one_sided[0]}` is {sorted(pols[one_sided[0]])[0]}; the other ranks have left {fi.name} and wait in the world collective of {where}: "
+                "an invalid request hangs the run instead of raising on every rank",
+                key_extra=f"rank-divergent-raise-{fi.qualname}",
+            )
+    if n < 3:
+        raise AnalysisError(f"C06.R10: only {n} raise statements in rank-aware functions found, minimum 3")
+
+
 RULES = [
     ("C06.R1", rule_r1, QUICK),
     ("C06.R2", rule_r2, QUICK),
@@ -974,4 +1073,5 @@ RULES = [
     ("C06.R7", rule_r7, QUICK),
     ("C06.R8", rule_r8, QUICK),
     ("C06.R9", rule_r9, QUICK),
+    ("C06.R10", rule_r10, QUICK),
 ]
